@@ -175,7 +175,7 @@ def _times_to_int_array(times):
     return times.view(np.int64)
 
 
-@check_data_inputs_aligned("values, times")
+@check_data_inputs_aligned("values", "times")
 def ema(
     values: np.ndarray | pd.Series,
     alpha: Optional[float] = None,
